@@ -232,6 +232,46 @@ pub proof fn totals_add_up(states: Seq<SummaryPrinted>, evs: Seq<Ev>)
     }
 }
 
+// =====================================================================================================
+// SUM-FILE — the per-file section of --summary (print_all_files_summaries, src/printer/summary.rs): for each file, in turn, what is
+// handed to print_file_summary as that file's printed counts is the file's OWN entry of the per-file map -- nothing when the file
+// printed nothing (C19: "per-file counts add up to the totals").  The statements of one iteration from the removal of the entries to
+// the call, cut from the loop body; the wrapper declares the locals of those statements before the slice with arbitrary earlier
+// values, so that a value carried over from a previous iteration is not the file's own.
+#[verifier::external_body]
+pub struct FPath { _p: u8 }
+#[verifier::external_body]
+pub struct Opaque { _p: u8 }
+#[verifier::external_body]
+pub struct Summary { _p: u8 }
+pub type SummaryOpt = Option<Summary>;
+pub type SummaryPrintedOpt = Option<SummaryPrinted>;
+pub type MapPathIdSummary = BTreeMap<PathId, Summary>;
+/// ghost: what print_file_summary is expected to be given for the file now being printed
+pub uninterp spec fn own_printed(pathid: PathId) -> SummaryPrintedOpt;
+pub uninterp spec fn path_id_of(path: &FPath) -> PathId;
+/// stand-in for print_file_summary: its obligation is on the printed counts it is given
+#[verifier::external_body]
+pub fn print_file_summary(path: &FPath, modified_time: &Opaque, file_processing_result: Option<&Opaque>, filetype: &Opaque, logmessagetype: &Opaque,
+        summary_opt: &SummaryOpt, summary_print_opt: &SummaryPrintedOpt, color: &Opaque, color_choice: &Opaque)
+    requires *summary_print_opt == own_printed(path_id_of(path))
+{ unimplemented!() }
+pub fn sum_file_iteration(pathid: &PathId, path: &FPath, modified_time: &Opaque, file_processing_result: Option<&Opaque>, filetype: &Opaque, logmessagetype: &Opaque,
+        color: &Opaque, color_choice: &Opaque, map_pathid_summary: &mut MapPathIdSummary, map_pathid_sumpr: &mut MapPathIdSummaryPrint,
+        carried_summary: SummaryOpt, carried_print: SummaryPrintedOpt)
+    requires
+        path_id_of(path) == *pathid, old(map_pathid_summary)@.contains_key(*pathid),
+        own_printed(*pathid) == (if old(map_pathid_sumpr)@.contains_key(*pathid) { Some(old(map_pathid_sumpr)@[*pathid]) } else { None::<SummaryPrinted> }),
+    ensures
+        final(map_pathid_sumpr)@ == old(map_pathid_sumpr)@.remove(*pathid),
+{
+    proof { broadcast use vstd::std_specs::btree::group_btree_axioms; }
+    let mut summary_opt: SummaryOpt = carried_summary;
+    let mut summary_print_opt: SummaryPrintedOpt = carried_print;
+//@cut slice path=src/printer/summary.rs fn=print_all_files_summaries anchor="let summary_opt: SummaryOpt = map_pathid_summary.remove(pathid);" take=range end_anchor="print_file_summary(" label=SUM-FILE
+//@end
+}
+
 // ---- vacuity guard
 pub proof fn room__canary(pre: SummaryPrinted, printed: Count, flushed: Count)
     requires room(pre, printed, flushed, 3)
